@@ -87,6 +87,9 @@ class AttributeCollection(MutableMapping[int, Attribute]):
     cached: ClassVar[AttributeCollection | None] = None
     # previously parsed attribute, from which cached was made of
     previous: ClassVar[Buffer] = b''
+    # what the parsers read of the session `cached` was made for: the same bytes are another AS_PATH or
+    # AGGREGATOR when the ASNs are 2 bytes long, and AIGP is only kept on a session configured for it
+    previous_session: ClassVar[tuple[bool, bool] | None] = None
 
     representation: ClassVar[dict[int, tuple[str, str, str | tuple[str, ...], str, str]]] = {
         # key:  (how, default, name, text_presentation, json_presentation),
@@ -357,7 +360,8 @@ class AttributeCollection(MutableMapping[int, Attribute]):
 
     @classmethod
     def unpack(cls, data: Buffer, negotiated: Negotiated) -> AttributeCollection:
-        if cls.cached and data == cls.previous:
+        session = (negotiated.asn4, negotiated.aigp)
+        if cls.cached and data == cls.previous and session == cls.previous_session:
             return cls.cached
 
         attributes = cls().parse(data, negotiated)
@@ -370,9 +374,11 @@ class AttributeCollection(MutableMapping[int, Attribute]):
 
         if Attribute.CODE.MP_REACH_NLRI not in attributes and Attribute.CODE.MP_UNREACH_NLRI not in attributes:
             cls.previous = data
+            cls.previous_session = session
             cls.cached = attributes
         else:
             cls.previous = b''
+            cls.previous_session = None
             cls.cached = None
 
         return attributes
